@@ -16,11 +16,12 @@ EXPLANATION = ("Deductive: mix_values, D2O_sld, D2O_match and fasta.D2Omatch are
 
 
 def units(tier):
-    return [N.U_MIX_VALUES, N.U_D2O_SLD, N.U_D2O_MATCH, N.L_SUBSTITUTION_LINEAR, N.U_FASTA_MATCH, N.U_FASTA_D2OSLD, F.U_SUBSTITUTION]
+    return [N.U_MIX_VALUES, N.U_D2O_SLD, N.U_D2O_MATCH, N.L_SUBSTITUTION_LINEAR, N.U_FASTA_MATCH, N.U_FASTA_D2OSLD, F.U_SUBSTITUTION] + N.U_D2O_SLDS
 
 
 def runner_tasks(tier):
-    return [{"module": "c16", "task": "sample", "kind": "bounded", "clause": "direct substitution vs D2O_sld; fasta tables sweep"}]
+    return [{"module": "c16", "task": "sample", "kind": "bounded", "clause": "direct substitution vs D2O_sld; fasta tables sweep"},
+            {"module": "stateful", "task": "C16", "name": "stateful", "kind": "bounded", "clause": "same letters under different prefixes; compound on a private table is substituted"}]
 
 
 REPLAY = {'module': 'c16', 'task': 'replay'}
